@@ -4,6 +4,20 @@ packages assigns to a package-level variable. -/
 namespace PP.Tie
 theorem pin_no_global_writes_stack : PP.Extracted.stackGlobalWrites = [] := by decide
 theorem pin_no_global_writes_internal : PP.Extracted.internalGlobalWrites = [] := by decide
+/-- All the package-level variables there are: byte-string and table constants, the compiled
+regular expressions (safe for concurrent use, never reassigned: see above) and one palette value.
+No pool, cache, counter or lazily initialised value exists in which state could survive from one
+call to the next or be shared between goroutines. -/
+theorem pin_global_vars_stack : PP.Extracted.stackGlobalVars =
+    ["_Location_index [7]uint8", "_state_index [20]uint16", "commaSpace []byte", "crlf []byte",
+     "errBufferFull error", "inaccurateQuestionMark []byte", "lf []byte", "lockedToThread []byte",
+     "raceHeader []byte", "raceHeaderFooter []byte", "reCreated *regexp.Regexp", "reFile *regexp.Regexp",
+     "reFunc *regexp.Regexp", "reMethodSymbol *regexp.Regexp", "reMinutes *regexp.Regexp",
+     "reModule *regexp.Regexp", "reRaceGoroutine *regexp.Regexp", "reRaceOperationHeader *regexp.Regexp",
+     "reRacePreviousOperationHeader *regexp.Regexp", "reRoutineHeader *regexp.Regexp",
+     "reUnavail *regexp.Regexp", "reVersion *regexp.Regexp", "threeDots []byte", "underscore []byte",
+     "writeCap []byte", "writeLow []byte"] := by decide
+theorem pin_global_vars_internal : PP.Extracted.internalGlobalVars = ["defaultPalette Palette"] := by decide
 /-- the library starts no goroutines (scheduling cannot influence a result); the
 command starts one, in Main, to swallow signals -/
 theorem pin_no_goroutines_stack : PP.Extracted.stackGoStmts = [] := by decide
